@@ -215,7 +215,10 @@ Exec(st, S) ==
 \* one activation: the meta-events it owes and how it completes
 Activation(prog, log) ==
   LET S0 == [log |-> log, pos |-> 1, out |-> << <<"#enter", "True", "">> >>, env |-> <<>>]
-      p == Binds(S0, prog.params)
+      \* the closure variables the function declares nonlocal are reported first, with the value they have at entry
+      RECURSIVE Lead(_)
+      Lead(i) == IF i <= Len(prog.body) /\ prog.body[i].s = "nonlocal" THEN <<prog.body[i].v>> \o Lead(i + 1) ELSE <<>>
+      p == Binds(S0, Lead(1) \o prog.params)
       r == IF ~IsNorm(p) THEN p ELSE Block(prog.body, 1, p.S)
       S1 == CASE r.comp.c = "norm" -> Out(r.S, "#value", "None", "falloff")
               [] r.comp.c = "ret" -> r.S
